@@ -101,12 +101,43 @@ fn main() {
             for pat in ["(a, b, c)", "(a, b, c, d)", "(a)", "(a, b)"] { for src in ["rows", "enumerate(rows)", "edges(G)", "zip(rows, rows)", "rows[0]"] {
                 put(format!("min x\ns.t.\n x >= sum({pat} in {src}) {{ 1 }}\nwhere\n let rows = [[1, 2], [3, 4]]\n let G = Graph {{ A -> [B: 2], B }}\ndefine\n x as Real"), "limits");
                 put(format!("min x\ns.t.\n x >= 1 for {pat} in {src}\nwhere\n let rows = [[1, 2], [3, 4]]\n let G = Graph {{ A -> [B: 2], B }}\ndefine\n x as Real"), "limits"); } }
+            // zip over arrays of different lengths (either one longer, three arrays), in a sum and on a constraint
+            for (a, b) in [("A", "B"), ("B", "A"), ("A", "E"), ("E", "A"), ("E", "E")] {
+                put(format!("min x\ns.t.\n x >= sum((p, q) in zip({a}, {b})) {{ p * q }}\nwhere\n let A = [1, 2, 3]\n let B = [10, 20]\n let E = [4][1..1]\ndefine\n x as Real"), "limits");
+                put(format!("min x\ns.t.\n x >= sum((p, q) in zip({a}, {b})) {{ p * q }}\nwhere\n let A = [1, 2, 3]\n let B = [10, 20]\ndefine\n x as Real"), "limits");
+                put(format!("min x\ns.t.\n x >= p + q for (p, q) in zip({a}, {b})\nwhere\n let A = [1, 2, 3]\n let B = [10, 20]\ndefine\n x as Real"), "limits"); }
+            put("min x\ns.t.\n x >= sum((p, q, w) in zip(A, B, C)) { p * q * w }\nwhere\n let A = [1, 2, 3]\n let B = [10, 20]\n let C = [5, 6, 7, 8]\ndefine\n x as Real".to_string(), "limits");
+            put("min x\ns.t.\n x >= sum((p, q, w) in zip(C, A, B)) { p * q * w }\nwhere\n let A = [1, 2, 3]\n let B = [10, 20]\n let C = [5, 6, 7, 8]\ndefine\n x as Real".to_string(), "limits");
+            // bounds that chase each other without end: the analysis must stop at its step limit
+            for (tx, ty) in [("NonNegativeReal", "NonNegativeReal"), ("Real(0, 1e30)", "NonNegativeReal"), ("NonNegativeReal", "Real(-5, 1e300)")] {
+                put(format!("min x + y\ns.t.\n x >= y + 1\n y >= x + 1\ndefine\n x as {tx}\n y as {ty}"), "limits");
+                put(format!("max x\ns.t.\n x >= 2 * y + 1\n y >= 0.5 * x + 0.25\n x + y >= 3\ndefine\n x as {tx}\n y as {ty}"), "limits"); }
+            // equality-constrained LPs with fewer unit columns than rows (the tableau needs its two-phase start)
+            put("min a + b - c + 2 * d\ns.t.\n a + b + c - d = 4\n c - d = 0\ndefine\n a, b, c, d as NonNegativeReal(0, 100)".to_string(), "limits");
+            put("max a + b\ns.t.\n a + b + c = 6\n a - b = 1\n b + c = 3\ndefine\n a, b, c as NonNegativeReal(0, 50)".to_string(), "limits");
+            put("min a\ns.t.\n a + b = 2\n a + b = 3\ndefine\n a, b as NonNegativeReal(0, 9)".to_string(), "limits");
+            put("min a + b - c + 2 * d\ns.t.\n a + b + c - d = 4\n c - d = 0\ndefine\n a, b, c, d as NonNegativeReal".to_string(), "limits");
+            put("max a + b\ns.t.\n a + b + c = 6\n a - b = 1\n b + c = 3\ndefine\n a, b, c as NonNegativeReal".to_string(), "limits");
+            put("min a + 2 * b\ns.t.\n a + b = 2\n a - b = 0\n 2 * a + 2 * b = 4\ndefine\n a, b as NonNegativeReal".to_string(), "limits");
+            // an error inside a long expression with multi-byte letters at every offset around the places where a renderer may cut
+            for pad in 0..14 { for nm in ["quantit\u{e0}", "\u{e0}\u{e8}\u{ec}\u{f2}\u{f9}x", "\u{4e2d}\u{6587}\u{540d}"] {
+                put(format!("min x\ns.t.\n sum(i in 0..len(prezzi)) {{ prezzi[i] * x_i + {}p[i] * {nm}_i }} <= 1\nwhere\n let prezzi = [1, 2]\ndefine\n x as Real\n x_i, {nm}_i as Real for i in 0..2", "1 * ".repeat(pad)), "limits");
+                put(format!("min x\ns.t.\n x >= {}{nm}_0 + nope(3) + {nm}_1 * {nm}_0 - {nm}_1\ndefine\n x as Real\n {nm}_i as Real for i in 0..2", "1 + ".repeat(pad)), "limits"); } }
             // indexes at and around the length, names used more than once
             for ix in ["len(A)", "3", "2", "len(A) - 1", "len(A) + 1", "-1", "0 - 1", "len(A) * 2"] { put(format!("min x\ns.t.\n x >= A[{}]\n x >= M[1][{}]\nwhere\n let A = [4, 5, 6]\n let M = [[1], [2, 3, 4]]\ndefine\n x as Real", ix, ix), "limits"); }
             for k in 2..6 { let rows: Vec<String> = (0..k).map(|j| format!(" c: x >= {}", j)).collect(); put(format!("min x\ns.t.\n{}\ndefine\n x as Real", rows.join("\n")), "limits");
                 let rows: Vec<String> = (0..k).map(|j| format!(" c_i: x_i >= {} for i in 0..2", j)).collect(); put(format!("min x_0\ns.t.\n{}\n c__2: x_0 >= 7\ndefine\n x_i as Real for i in 0..2", rows.join("\n")), "limits"); }
             put(format!("min {}x\ns.t.\n x >= 1\ndefine\n x as Real", "-(".repeat(64) + &")".repeat(0)), "fixed");
             put(format!("min x\ns.t.\n {} x >= 1\ndefine\n x as Real", "not ".repeat(64)), "fixed");
+            // a product of a sum with 24 constant sums (flatten distributes every factor: finding F55)
+            put(format!("min v\ns.t.\n v >= (x + 1){}\ndefine\n x as Real(0, 10)\n v as Real(0, 1000000000)", " * (1 + 1)".repeat(24)), "fixed");
+            // min / max / abs blocks nested 40 deep over variables (nothing folds, nothing is pruned)
+            for (outer, k) in [("v >=", 40usize), ("v <=", 40), ("v >=", 33)] {
+                let mut e = "x".to_string();
+                for i in 0..k { e = match i % 3 { 0 => format!("max {{ {}, {} + {} }}", e, ["y", "z", "w"][i % 3], i), 1 => format!("min {{ {}, {} + {} }}", e, ["y", "z", "w"][i % 3], i), _ => format!("abs {{ {} - {} }}", e, ["y", "z", "w"][i % 3]) }; }
+                put(format!("min v\ns.t.\n {} {}\ndefine\n x, y, z, w as Real(0, 10)\n v as Real(0, 100000)", outer, e), "fixed"); }
+            { let mut e = "x".to_string(); for i in 0..40 { e = if i % 2 == 0 { format!("max {{ {}, y + {} }}", e, i) } else { format!("min {{ {}, z + {} }}", e, i) }; }
+              put(format!("min v\ns.t.\n v >= {}\ndefine\n x, y, z as Real(0, 10)\n v as Real(0, 100000)", e), "fixed"); }
             for i in 0..n {
                 match i % 4 {
                     0 | 1 => { let base = if corpus.is_empty() { grammar(&mut r) } else { corpus[r.below(corpus.len())].clone() }; put(mutate(&mut r, &base), "mutated"); }
@@ -149,9 +180,15 @@ fn main() {
                             // solving only models in which every variable is bounded (free variables hang microlp: finding F18 of C05)
                             let bounded = l.domain().values().all(|d| match d.get_type() { rooc::VariableType::Real(a, b) | rooc::VariableType::NonNegativeReal(a, b) => a.is_finite() && b.is_finite(), _ => true }) && l.variables().len() <= 12;
                             res.insert("all_bounded".into(), json!(bounded));
-                            if bounded { { let mut o = out.lock(); writeln!(o, "R {} 0 {}", i, Value::Object(res.clone())).unwrap(); writeln!(o, "S {} 1", i).unwrap(); o.flush().unwrap(); }
+                            // the tableau simplex (iteration limit) and Clarabel also get the models whose variables are only bounded below
+                            let all_real = l.domain().values().all(|d| matches!(d.get_type(), rooc::VariableType::Real(_, _) | rooc::VariableType::NonNegativeReal(_, _)));
+                            let lower_bounded = l.domain().values().all(|d| match d.get_type() { rooc::VariableType::Real(a, _) | rooc::VariableType::NonNegativeReal(a, _) => a.is_finite(), _ => true }) && l.variables().len() <= 12;
+                            if bounded || (all_real && lower_bounded) { { let mut o = out.lock(); writeln!(o, "R {} 0 {}", i, Value::Object(res.clone())).unwrap(); writeln!(o, "S {} 1", i).unwrap(); o.flush().unwrap(); }
                                 let mut r2 = serde_json::Map::new();
-                                stage("solve", &mut r2, move || rooc::auto_solver(&l).map(|s| { let _ = s.to_string(); }).map_err(|e| e.to_string()));
+                                if all_real { let (l4, l5) = (l.clone(), l.clone());
+                                    stage("solve_tableau_simplex", &mut r2, move || rooc::solve_real_lp_problem_slow_simplex(&l4, 2000).map(|s| { let _ = s.to_string(); }).map_err(|e| e.to_string()));
+                                    stage("solve_clarabel", &mut r2, move || rooc::solve_real_lp_problem_clarabel(&l5).map(|s| { let _ = s.to_string(); }).map_err(|e| e.to_string())); }
+                                if bounded { stage("solve", &mut r2, move || rooc::auto_solver(&l).map(|s| { let _ = s.to_string(); }).map_err(|e| e.to_string())); }
                                 let mut o = out.lock(); writeln!(o, "R {} 1 {}", i, Value::Object(r2)).unwrap(); o.flush().unwrap(); continue; }
                         }
                     }
